@@ -422,6 +422,7 @@ SPECS["C05"] = dict(
     # access (not a data race): checkptr is switched off for that tag set
     jobs=[dict(name="c05-" + tagname(tg), pkg="./verifx/c05", tags=tg, race=True, gcflags=("all=-d=checkptr=0" if "poll_opt" in tg else ""), tests=[
         dict(id="race", run="^TestC05RaceAndConfinement$", quick=dict(shards=4, checks=80, timeout=600, shrinktime=20, env={"GOMAXPROCS": 8}), thorough=dict(shards=8, checks=3000, timeout=3400, shrinktime=120, env={"GOMAXPROCS": 8})),
+        dict(id="poolchurn", run="^TestC05PoolChurnAcrossLoops$", quick=dict(shards=1, checks=5, timeout=600, shrinktime=5, env={"GOMAXPROCS": 8}), thorough=dict(shards=2, checks=30, timeout=3400, shrinktime=30, env={"GOMAXPROCS": 8})),
     ]) for tg in ["", "poll_opt,gc_opt"]],
 )
 
